@@ -208,6 +208,29 @@ theorem reject_bad_config (spec : List Opt) (ini : List (Str × CfgVal)) (dodo :
     (hbad : IsErr (str2typeCfg o c)) : IsErr (pipeline spec ini dodo env argv) :=
   pipeline_bad_config spec ini dodo env argv hwf hini k c o hm hf hbad
 
+/-- through `DoitMain.run`: every failure of the resolution — a bad value in a config section included — ends as
+    `ERROR: …` with exit code 3, never as an uncaught exception; success is the command's own return -/
+theorem main_reports_exit3 (spec : List Opt) (ini : List (Str × CfgVal)) (dodo : List (Str × Val))
+    (env : Str → Option Str) (argv : List Str) :
+    runMain false spec ini dodo env argv = afterParse (pipeline spec ini dodo env argv) := by
+  unfold runMain pipeline
+  cases overwriteDefaults ini spec <;> simp [afterParse]
+
+/-- **reject_bad_config through DoitMain**: an ill-typed / invalid-choice value in a config section gives exit code 3 -/
+theorem reject_bad_config_exit3 (spec : List Opt) (ini : List (Str × CfgVal)) (dodo : List (Str × Val))
+    (env : Str → Option Str) (argv : List Str) (hwf : (spec.map (·.name)).Nodup) (hini : (ini.map (·.1)).Nodup)
+    (k : Str) (c : CfgVal) (o : Opt) (hm : (k, c) ∈ ini) (hf : findOpt spec k = some o)
+    (hbad : IsErr (str2typeCfg o c)) : (runMain false spec ini dodo env argv).kind = 3 := by
+  rw [main_reports_exit3]
+  obtain ⟨e, he⟩ := reject_bad_config spec ini dodo env argv hwf hini k c o hm hf hbad
+  rw [he]; rfl
+
+/-- F-C16b (fixed in /repo, e98fc2c): with the command constructed outside the `try`, `num = abc` in the command's
+    config section ended as an uncaught exception (exit status 1), not as exit code 3 -/
+theorem pinned_config_error_escapes :
+    (runMain true demoSpec [(['n'], .raw ['a','b','c'])] [] (fun _ => none) []).kind = 1 ∧
+    (runMain false demoSpec [(['n'], .raw ['a','b','c'])] [] (fun _ => none) []).kind = 3 := by decide
+
 /-- what "ill-typed" and "invalid choice" mean for `str2type` -/
 theorem bad_int_is_error (o : Opt) (s : Str) (hty : o.ty = .int) (hbad : parseInt s = none) : IsErr (str2type o s) :=
   ⟨_, str2type_bad_int o s hty hbad⟩
